@@ -1,4 +1,9 @@
+#[cfg(not(crux_verif))]
 use std::sync::Mutex;
+
+// same mutex, except that a simulated thread yields to its controller instead of sleeping
+#[cfg(crux_verif)]
+use crate::verif::Mutex;
 
 use serde::{Deserialize, Serialize};
 use slab::Slab;
